@@ -925,6 +925,202 @@ structure Closure where
 	sb.WriteString("/-- per state-changing method: the ctx-receiving calls inside its ExecuteNativeAction closure, in source order -/\ndef closures : List Closure := [\n" + strings.Join(clos, ",\n") + "\n]\n\n")
 	c.facts["C10.closures"] = cloFacts
 
+	// ---- value flows: how each payable crosschain method ties the native coins it takes from the precompile account
+	// (handlerOriginToken's amount) to contract.Value()
+	type vflow struct {
+		Abi, Branch, Taken string
+		Guards             []string
+	}
+	var vflows []string
+	var vfacts []vflow
+	{
+		decls := c.funcDecls("x/crosschain/precompile")
+		abiOf := map[string]string{}
+		for _, fd := range decls {
+			if fd.Recv != nil || fd.Body == nil || !strings.HasPrefix(fd.Name.Name, "New") || fd.Type.Results == nil || len(fd.Type.Results.List) != 1 {
+				continue
+			}
+			if st, ok := fd.Type.Results.List[0].Type.(*ast.StarExpr); ok {
+				if id, ok := st.X.(*ast.Ident); ok {
+					ast.Inspect(fd.Body, func(x ast.Node) bool {
+						if ie, ok := x.(*ast.IndexExpr); ok {
+							if se, ok := ie.X.(*ast.SelectorExpr); ok && se.Sel.Name == "Methods" {
+								if bl, ok := ie.Index.(*ast.BasicLit); ok {
+									abiOf[id.Name], _ = strconv.Unquote(bl.Value)
+								}
+							}
+						}
+						return true
+					})
+				}
+			}
+		}
+		for _, fd := range decls {
+			if fd.Name.Name != "Run" || fd.Body == nil || recvName(fd) == "Contract" {
+				continue
+			}
+			name, ok := abiOf[recvName(fd)]
+			if !ok {
+				continue
+			}
+			alias := map[string]ast.Expr{}
+			ast.Inspect(fd.Body, func(x ast.Node) bool {
+				if as, ok := x.(*ast.AssignStmt); ok && len(as.Lhs) == 1 && len(as.Rhs) == 1 {
+					if id, ok := as.Lhs[0].(*ast.Ident); ok {
+						if _, dup := alias[id.Name]; !dup {
+							alias[id.Name] = as.Rhs[0]
+						}
+					}
+				}
+				return true
+			})
+			var ve func(e ast.Expr, depth int) string
+			ve = func(e ast.Expr, depth int) string {
+				switch v := e.(type) {
+				case *ast.ParenExpr:
+					return ve(v.X, depth)
+				case *ast.Ident:
+					if rhs, ok := alias[v.Name]; ok && depth < 5 {
+						return ve(rhs, depth+1)
+					}
+				case *ast.SelectorExpr:
+					if id, ok := v.X.(*ast.Ident); ok && id.Name == "args" {
+						return "(.arg " + leanStr(v.Sel.Name) + ")"
+					}
+				case *ast.CallExpr:
+					if se, ok := v.Fun.(*ast.SelectorExpr); ok {
+						if id, ok := se.X.(*ast.Ident); ok && id.Name == "contract" && se.Sel.Name == "Value" && len(v.Args) == 0 {
+							return ".value"
+						}
+						if se.Sel.Name == "Add" && len(v.Args) == 2 && pureBigRecv(se.X) {
+							return "(.add " + ve(v.Args[0], depth) + " " + ve(v.Args[1], depth) + ")"
+						}
+						if pk, fn := selName(v.Fun); pk == "big" && fn == "NewInt" && len(v.Args) == 1 {
+							if bl, ok := v.Args[0].(*ast.BasicLit); ok && bl.Kind == token.INT {
+								return "(.const " + strings.ReplaceAll(bl.Value, "_", "") + ")"
+							}
+						}
+					}
+				}
+				return "(.unknown " + leanStr(flat(c.src(e))) + ")"
+			}
+			// every handlerOriginToken call with the if-statements that enclose it and the error-returning comparisons
+			// that precede it inside the innermost enclosing block
+			var visit func(list []ast.Stmt, conds []string)
+			visit = func(list []ast.Stmt, conds []string) {
+				var guards []string
+				for _, st := range list {
+					if is, ok := st.(*ast.IfStmt); ok && is.Init == nil {
+						if be, ok := is.Cond.(*ast.BinaryExpr); ok {
+							if op := cmpOpName(be.Op); op != "" {
+								if ce, ok := be.X.(*ast.CallExpr); ok {
+									if se, ok := ce.Fun.(*ast.SelectorExpr); ok && se.Sel.Name == "Cmp" && len(ce.Args) == 1 {
+										if k, ok := smallInt(be.Y); ok && len(is.Body.List) > 0 {
+											if rs, ok := is.Body.List[len(is.Body.List)-1].(*ast.ReturnStmt); ok && len(rs.Results) > 0 && !isNilIdent(rs.Results[len(rs.Results)-1]) && is.Else == nil {
+												guards = append(guards, "{ lhs := "+ve(se.X, 0)+", rhs := "+ve(ce.Args[0], 0)+", op := "+op+", k := "+leanInt(k)+" }")
+											}
+										}
+									}
+								}
+							}
+						}
+					}
+					found := false
+					ast.Inspect(st, func(x ast.Node) bool {
+						if _, isBlock := x.(*ast.BlockStmt); isBlock {
+							return false
+						}
+						if _, isLit := x.(*ast.FuncLit); isLit {
+							return false
+						}
+						if ce, ok := x.(*ast.CallExpr); ok && calleeName(ce) == "handlerOriginToken" && len(ce.Args) == 4 {
+							found = true
+							vf := vflow{Abi: name, Branch: strings.Join(conds, " && "), Taken: ve(ce.Args[3], 0), Guards: guards}
+							vfacts = append(vfacts, vf)
+							vflows = append(vflows, fmt.Sprintf("  -- %s\n  { abiName := %s, branch := %s, guards := %s, taken := %s, recipient := %s }",
+								c.pos(ce), leanStr(name), leanStr(vf.Branch), leanList(guards), vf.Taken, leanStr(strings.Join(c.c09Prov(ce.Args[2], alias, 0), "+"))))
+						}
+						return true
+					})
+					_ = found
+					switch v := st.(type) {
+					case *ast.IfStmt:
+						cond := flat(c.src(v.Cond))
+						visit(v.Body.List, append(append([]string{}, conds...), cond))
+						if eb, ok := v.Else.(*ast.BlockStmt); ok {
+							visit(eb.List, append(append([]string{}, conds...), "!("+cond+")"))
+						}
+					case *ast.ForStmt:
+						visit(v.Body.List, conds)
+					case *ast.RangeStmt:
+						visit(v.Body.List, conds)
+					case *ast.BlockStmt:
+						visit(v.List, conds)
+					}
+				}
+			}
+			ast.Inspect(fd.Body, func(x ast.Node) bool {
+				if fl, ok := x.(*ast.FuncLit); ok {
+					visit(fl.Body.List, nil)
+					return false
+				}
+				return true
+			})
+		}
+	}
+	sb.WriteString(`/-- amounts in a payable method: msg.value, an ABI argument, a sum -/
+inductive VE
+  | value | arg (name : String) | add (a b : VE) | const (n : Nat) | unknown (src : String)
+  deriving Repr, DecidableEq
+
+/-- ` + "`if lhs.Cmp(rhs) op k { return err }`" + ` -/
+structure VGuard where
+  lhs : VE
+  rhs : VE
+  op : CmpOp
+  k : Int
+  deriving Repr, DecidableEq
+
+/-- one call of handlerOriginToken (precompile account -> evm module -> ` + "`recipient`" + `): the conditions of the enclosing ifs,
+the error-returning comparisons before it in its block, the amount it is handed -/
+structure ValueFlow where
+  abiName : String
+  branch : String
+  guards : List VGuard
+  taken : VE
+  recipient : String
+  deriving Repr, DecidableEq
+
+`)
+	sb.WriteString("def valueFlows : List ValueFlow := [\n" + strings.Join(vflows, ",\n") + "\n]\n\n")
+	c.facts["C10.valueFlows"] = vfacts
+	// handlerOriginToken itself: from which account the coins leave and where they go
+	var otf []string
+	if hfd := c.findFunc("x/crosschain/precompile", "Keeper", "handlerOriginToken"); hfd != nil && hfd.Body != nil {
+		var ps []string
+		for _, p := range hfd.Type.Params.List {
+			for _, n := range p.Names {
+				ps = append(ps, n.Name)
+			}
+		}
+		otf = append(otf, "("+leanStr("params")+", "+leanStrs(ps)+")")
+		ast.Inspect(hfd.Body, func(x ast.Node) bool {
+			if ce, ok := x.(*ast.CallExpr); ok {
+				nm := calleeName(ce)
+				if strings.HasPrefix(nm, "SendCoins") || nm == "NewCoin" || nm == "MintCoins" || nm == "BurnCoins" {
+					var as []string
+					for _, a := range ce.Args {
+						as = append(as, flat(c.src(a)))
+					}
+					otf = append(otf, "("+leanStr(nm)+", "+leanStrs(as)+")")
+				}
+			}
+			return true
+		})
+	}
+	sb.WriteString("/-- x/crosschain/precompile handlerOriginToken: its parameters and its bank calls in source order -/\n")
+	sb.WriteString("def originTokenFlow : List (String × List String) := " + leanList(otf) + "\n\n")
+
 	// ---- handlerTransferShares: the statements that read, guard and rewrite the two delegations, in source order
 	var flow []string
 	if hfd := c.findFunc("x/staking/precompile", "TransferShare", "handlerTransferShares"); hfd != nil && hfd.Body != nil {
